@@ -3,7 +3,7 @@
    of Conc/ReadLin.v *)
 From Coq Require Import List Arith Bool Lia.
 From RW Require Import Conc.Sys Conc.SysFacts Conc.Close Conc.ListX Conc.CloseInv Conc.CloseInv2 Conc.CloseFacts
-     Conc.CloseSafe Conc.CloseSafeStep Conc.CloseStep1 Conc.CloseReach Conc.CloseReach2
+     Conc.CloseSafe Conc.CloseSafeStep Conc.CloseStep1 Conc.CloseReach Conc.CloseReach2 Conc.CloseThm2
      Conc.ReadInv Conc.ReadStep Conc.Readers Conc.ReadView Conc.ReadLin.
 Import ListNotations.
 
@@ -145,4 +145,12 @@ Proof.
   apply (events_lin w (length progs) (progs ++ [] :: extra) sch (init progs extra) 0 [] [] G eq_refl); [|exact Hi].
   intros t th o E P O _. exfalso.
   destruct (init_threads _ _ _ _ E) as [(p & _ & -> & _)|(_ & ->)]; [apply P; reflexivity | discriminate O].
+Qed.
+
+(* the two statements as formulated in Conc/Readers.v *)
+Theorem readers_statements : reads_linearizable_statement /\ stable_entry_intact_statement.
+Proof.
+  split.
+  - intros w progs extra sch e SW. apply (reads_linearizable w progs extra sch e SW).
+  - intros w progs extra sch t th SW. apply (stable_entry_intact w progs extra sch t th SW).
 Qed.
